@@ -80,9 +80,11 @@ def _ev(ast, look):
         return -_ev(ast[1], look)
     if k == "pow":
         return _ev(ast[1], look) ** ast[2]
+    if k == "wl":  # len(<tensor set of the Einsum the evaluation is done for>)
+        return look("#" + ast[1])
     if k == "call":
         args = [_ev(a, look) for a in ast[2]]
-        return {"min": min, "max": max, "abs": lambda v: abs(v)}[ast[1]](*args)
+        return {"min": min, "max": max, "abs": lambda v: abs(v), "cf": lambda v: v + 3}[ast[1]](*args)
     l, r = _ev(ast[2], look), _ev(ast[3], look)
     op = ast[1]
     if op == "+":
@@ -114,6 +116,22 @@ def _refs(ast, out=None):
     return out
 
 
+def _calls(ast, out=None):
+    """Names of the functions called in the tree."""
+    out = [] if out is None else out
+    k = ast[0]
+    if k in ("neg", "pow"):
+        _calls(ast[1], out)
+    elif k == "call":
+        out.append(ast[1])
+        for a in ast[2]:
+            _calls(a, out)
+    elif k == "bin":
+        _calls(ast[2], out)
+        _calls(ast[3], out)
+    return out
+
+
 def _render(ast, rnd, top=True):
     """Text of the tree; every non-atomic operand is parenthesised, spacing and redundant parentheses vary."""
     k = ast[0]
@@ -121,7 +139,7 @@ def _render(ast, rnd, top=True):
 
     def operand(a):
         s = _render(a, rnd, top=False)
-        atomic = a[0] in ("ref", "call") or (a[0] == "lit" and a[1] >= 0)
+        atomic = a[0] in ("ref", "call", "wl") or (a[0] == "lit" and a[1] >= 0)
         if not atomic or rnd.random() < 0.15:
             return "(" + sp.strip() + s + ")"
         return s
@@ -130,6 +148,8 @@ def _render(ast, rnd, top=True):
         return str(ast[1])
     if k == "ref":
         return ast[1]
+    if k == "wl":
+        return "len(" + sp.strip() + ast[1] + sp.strip() + ")"
     if k == "neg":
         return "-" + operand(ast[1])
     if k == "pow":
@@ -140,8 +160,11 @@ def _render(ast, rnd, top=True):
     return operand(ast[2]) + sp + ast[1] + sp + operand(ast[3])
 
 
-def _gen_expr(rnd, names, depth, must=None):
-    """Random tree over `names` (may be empty); mentions every name of `must`."""
+def _gen_expr(rnd, names, depth, must=None, calls=("min", "max", "abs"), atoms=()):
+    """Random tree over `names` (may be empty); mentions every name of `must`.  `calls`: the functions that
+    may be called (a function whose name is a user definition visible here is not in it); `atoms`: extra leaves."""
+    two = [f for f in ("min", "max") if f in calls]
+    one = [f for f in ("abs", "cf") if f in calls]
     def lit():
         r = rnd.random()
         if r < 0.7:
@@ -151,6 +174,8 @@ def _gen_expr(rnd, names, depth, must=None):
         return ("lit", rnd.randint(-10 ** 6, 10 ** 6))
 
     def atom():
+        if atoms and rnd.random() < 0.2:
+            return rnd.choice(atoms)
         if names and rnd.random() < 0.7:
             return ("ref", rnd.choice(names))
         return lit()
@@ -174,8 +199,12 @@ def _gen_expr(rnd, names, depth, must=None):
         if r < 0.93:
             return ("pow", go(d - 1), rnd.choice([0, 1, 2, 2, 3]))
         if r < 0.97:
-            return ("call", rnd.choice(["min", "max"]), [go(d - 1), go(d - 1)])
-        return ("call", "abs", [go(d - 1)])
+            if not two:
+                return atom()
+            return ("call", rnd.choice(two), [go(d - 1), go(d - 1)])
+        if not one:
+            return atom()
+        return ("call", one[0] if len(one) == 1 else rnd.choice(one), [go(d - 1)])
 
     t = go(depth)
     for m in must or []:
@@ -267,6 +296,8 @@ def reference(case):
             state[name] = 1
 
             def look(n):
+                if n.startswith("#"):  # number of tensors in a set of the Einsum the evaluation is done for
+                    return (case.get("_ctx") or {}).get(n[1:], 0)
                 if n in own:
                     return visit(n, stack + [name])
                 return outer(n)
@@ -315,15 +346,37 @@ def _raw(ast, rnd):
     return _render(ast, rnd)
 
 
-def gen_case(rnd, size="normal", positive=False):
+WL_SETS = ("All", "Inputs", "Outputs", "Tensors")
+FUNCS = ("min", "max", "abs", "cf")
+
+
+def _callable_here(case, tid, own_names):
+    """The functions an expression of tier `tid` may call: those whose name is not a user definition visible there."""
+    seen = set(own_names) | set(_visible_outer(case, tid))
+    return [f for f in FUNCS if f not in seen and (f != "cf" or case.get("cf"))]
+
+
+def gen_case(rnd, size="normal", positive=False, pre=(), wl=None, cf=False):
+    """pre: names the expression evaluator pre-binds, used here as names of user definitions; wl: a workload
+    description (the arch-level expressions may then use len(<tensor set>)); cf: a custom function cf(x) = x + 3 is
+    registered in the Spec's config."""
     comps = [dict(c) for c in COMPS2]
     for c in comps:
         if rnd.random() < 0.3:
             c["spatial"] = True
     case = {"tiers": _skeleton(comps), "comps": comps, "order": _tier_ids(comps), "_ast": {},
             "wrap": rnd.random() < 0.25, "bigint": False}
+    if pre:
+        case["pre"] = list(pre)
+    if wl:
+        case["wl"] = wl
+    if cf:
+        case["cf"] = True
+    if positive:
+        case["positive"] = True
     budget = rnd.randint(2, 12) if size == "normal" else rnd.randint(8, 14)
-    pool_sa = FREE + (FIELD_VARS if rnd.random() < 0.6 else [])
+    free = (list(pre) + rnd.sample(FREE, 4)) if pre else FREE
+    pool_sa = free + (FIELD_VARS if rnd.random() < 0.6 else [])
     used = []  # names already defined somewhere outside (to provoke shadowing)
 
     def pick(pool, k, reuse):
@@ -347,10 +400,10 @@ def gen_case(rnd, size="normal", positive=False):
             names = pick(pool_sa, k, 0.6)
         elif kind == "X":
             k = min(budget, rnd.choice([0, 0, 1, 2, 3]))
-            names = pick(FREE, k, 0.6)
+            names = pick(free, k, 0.6)
         elif kind == "Y":
             k = min(budget, rnd.choice([0, 0, 0, 1, 2]))
-            names = pick(FREE, k, 0.6)
+            names = pick(free, k, 0.6)
         elif kind == "P":
             k, names = 0, ["fanout"]
         elif kind == "F":
@@ -373,8 +426,10 @@ def gen_case(rnd, size="normal", positive=False):
         case["_ast"][tid] = asts
         outer_names = [n for n in _visible_outer(case, tid) if n not in names]
         if kind == "X":  # component extra attributes never mention a declared field name of the component
-            outer_names = [n for n in outer_names if n in FREE]
+            outer_names = [n for n in outer_names if n in FREE or n in pre]
         mand = set(COMP_MAND["Memory"] + ACT_MAND)
+        calls = _callable_here(case, tid, names) if (pre or cf) else ("min", "max", "abs")
+        atoms = [("wl", w) for w in WL_SETS] if (wl and kind != "S") else ()
         for i, name in enumerate(topo):
             visible = topo[:i] + outer_names
             for attempt in range(8):
@@ -384,7 +439,8 @@ def gen_case(rnd, size="normal", positive=False):
                     ast = ("lit", rnd.randint(-9, 30))
                 else:
                     must = [rnd.choice(topo[:i])] if (i and rnd.random() < 0.6) else []
-                    ast = _gen_expr(rnd, visible if attempt < 6 else [], rnd.choice([1, 2, 2, 3]), must if attempt < 6 else [])
+                    ast = _gen_expr(rnd, visible if attempt < 6 else [], rnd.choice([1, 2, 2, 3]), must if attempt < 6 else [],
+                                    calls=calls, atoms=atoms)
                 if kind == "P" or (positive and kind in ("F", "T")):
                     ast = ("bin", "+", ("call", "abs", [ast]), ("lit", 1))
                 asts[name] = ast
@@ -503,7 +559,19 @@ def build(case):
             node = Hierarchical(nodes=[node])
         nodes.append(node)
     arch = Arch(nodes=nodes, variables={k: v for k, v in T["A"]["defs"]})
-    return Spec(arch=arch, variables={k: v for k, v in T["S"]["defs"]})
+    kw = {}
+    if case.get("wl"):
+        from accelforge.frontend.workload import Workload
+        kw["workload"] = Workload(einsums=list(case["wl"]["einsums"]), rank_sizes={"M": 4}, bits_per_value={"All": 8})
+    if case.get("cf"):
+        from accelforge.frontend.config import Config
+        kw["config"] = Config(expression_custom_functions=[cf])
+    return Spec(arch=arch, variables={k: v for k, v in T["S"]["defs"]}, **kw)
+
+
+def cf(x):
+    """The custom expression function registered for cases with case["cf"]."""
+    return x + 3
 
 
 def observe(ev, case):
